@@ -73,11 +73,13 @@ type (
 		variant   map[string]int
 		successes int
 		fails     int
+		// data sources that don't contain the beginning of an inverted sequence
+		neutrals int
 	}
 	progressGroup struct {
-		variants         []progressVariant
-		successes, fails int
-		variantResults   []variantResult
+		variants                   []progressVariant
+		successes, fails, neutrals int
+		variantResults             []variantResult
 	}
 )
 
@@ -758,6 +760,7 @@ func makeDataConditionFilter(dataSources []func(s *stream) ([][2]int, [2][]byte,
 			ps.variantResults = ps.variantResults[:0]
 			ps.fails = 0
 			ps.successes = 0
+			ps.neutrals = 0
 		}
 		evaluatedDataSources := 0
 		for _, dataSource := range dataSources {
@@ -875,7 +878,12 @@ func makeDataConditionFilter(dataSources []func(s *stream) ([][2]int, [2][]byte,
 						})
 						vr = &pg.variantResults[len(pg.variantResults)-1]
 					}
-					if nUnsuccessful >= 2 || (nUnsuccessful != 0) != d.Inverted {
+					if d.Inverted && nUnsuccessful >= 2 {
+						// the beginning of the sequence is not in this data source: this doesn't make
+						// the inverted condition fail, the sequence could be in another data source
+						pg.neutrals++
+						vr.neutrals++
+					} else if nUnsuccessful >= 2 || (nUnsuccessful != 0) != d.Inverted {
 						pg.fails++
 						vr.fails++
 					} else {
@@ -902,8 +910,8 @@ func makeDataConditionFilter(dataSources []func(s *stream) ([][2]int, [2][]byte,
 		}
 		if evaluatedDataSources == 0 {
 			for _, c := range conditions {
-				if !c.Inverted {
-					// at least one condition is not inverted, it is not a match...
+				if !c.Inverted || len(c.Elements) != 1 {
+					// at least one condition is not inverted or needs the beginning of a sequence, it is not a match...
 					return false, nil
 				}
 			}
@@ -915,15 +923,15 @@ func makeDataConditionFilter(dataSources []func(s *stream) ([][2]int, [2][]byte,
 				// this never succeeded, we can stop here
 				return false, nil
 			}
-			if pg.fails == 0 {
+			if pg.fails == 0 && pg.neutrals == 0 {
 				// this succeeded for all data sources, we don't have to do more with this
 				continue
 			}
-			// we have both successes and fails
+			// we have successes and fails or data sources without the beginning of an inverted sequence
 			inverted := conditions[pgIdx].Inverted
-			if pg.successes+pg.fails == evaluatedDataSources {
+			if pg.successes+pg.fails+pg.neutrals == evaluatedDataSources {
 				// there are no variants, we don't match partially
-				if inverted {
+				if inverted && pg.fails != 0 {
 					// an inverted condition fails if at least one data source made it fail
 					return false, nil
 				}
@@ -932,10 +940,10 @@ func makeDataConditionFilter(dataSources []func(s *stream) ([][2]int, [2][]byte,
 
 			for vrIdx := 0; vrIdx < len(pg.variantResults); vrIdx++ {
 				vr := &pg.variantResults[vrIdx]
-				if vr.fails == 0 {
+				if vr.fails == 0 && vr.successes != 0 {
 					continue
 				}
-				if vr.successes+vr.fails != evaluatedDataSources {
+				if vr.successes+vr.fails+vr.neutrals != evaluatedDataSources {
 					// we are either a split or we get splitted more for another data source
 
 					// explode all variants and re-calculate their success/fail counts
@@ -964,11 +972,12 @@ func makeDataConditionFilter(dataSources []func(s *stream) ([][2]int, [2][]byte,
 							}
 							vr.successes += vr2.successes
 							vr.fails += vr2.fails
-							if vr.successes+vr.fails == evaluatedDataSources {
+							vr.neutrals += vr2.neutrals
+							if vr.successes+vr.fails+vr.neutrals == evaluatedDataSources {
 								break
 							}
 						}
-						if vr.successes+vr.fails != evaluatedDataSources {
+						if vr.successes+vr.fails+vr.neutrals != evaluatedDataSources {
 							return false, fmt.Errorf("not implemented")
 						}
 					}
